@@ -40,6 +40,7 @@ type c04Case struct {
 	// ExtraReq: legacy only: between tunnel authorization and the channel request another request with the same
 	// connection identifier arrives from the presenting address (a retried RDG_IN_DATA / RDG_OUT_DATA). It must change nothing.
 	ExtraReq string `json:"extra_request_same_id,omitempty"`
+	Signed bool `json:"signed_host_selection,omitempty"` // the gateway runs signed host selection (which allows no channel at the tunnel by itself): a token from another address must still not get one
 }
 
 // refAddr is the reference client-address function of the statement.
@@ -77,6 +78,7 @@ func genChain(t *rapid.T, first string) []string {
 
 func genC04(t *rapid.T) c04Case {
 	c := c04Case{Verify: rapid.IntRange(0, 3).Draw(t, "verify") > 0, Kind: genKind(t)}
+	c.Signed = rapid.IntRange(0, 5).Draw(t, "signedSelection") == 0
 	c.Issue.IP = rapid.SampledFrom(c04IPs).Draw(t, "issueIP")
 	if rapid.Bool().Draw(t, "issueXFF") {
 		c.Issue.XFF = genChain(t, rapid.SampledFrom(append(c04Far, c04IPs...)).Draw(t, "issueFirst"))
@@ -304,7 +306,7 @@ func checkC04(c c04Case, cookie string, gwAddr string, extraHdr [][2]string) *Vi
 			if total > 1 || acc["B"] != 0 || acc["D"] != 0 {
 				return viol("c04/wrong-connection", "unexpected connections: %s", desc)
 			}
-			if !c.Verify && (ch == nil || ch.Status != 0 || acc["A"] != 1) {
+			if !c.Verify && !c.Signed && (ch == nil || ch.Status != 0 || acc["A"] != 1) {
 				return viol("c04/refused-although-verification-off", "the channel must be created: %s", desc)
 			}
 			return nil
@@ -314,6 +316,8 @@ func checkC04(c c04Case, cookie string, gwAddr string, extraHdr [][2]string) *Vi
 	pi, pu := net.ParseIP(ia), net.ParseIP(ua)
 	sameIP := pi != nil && pu != nil && pi.Equal(pu)
 	switch {
+	case c.Signed && (!c.Verify || same || sameIP):
+		// nothing to assert: signed selection lets no channel through at the tunnel
 	case !c.Verify || same:
 		if ch == nil || ch.Status != 0 || acc["A"] != 1 || total != 1 {
 			sig := "c04/refused-same-address"
@@ -357,6 +361,9 @@ func TestC04_INP(t *testing.T) {
 		w := W()
 		installIssuer()
 		o := gwOpts{TokenAuth: true, HostSelection: "roundrobin", Hosts: []string{w.addr("A")}, VerifyIP: c.Verify}
+		if c.Signed {
+			o.HostSelection = "signed"
+		}
 		return withGateway(mkGateway(o), func() *Violation {
 			at := w.IdP.NewAccessToken("ok:" + w.User)
 			u := fmt.Sprintf("http://%s/issue?user=%s&host=%s&at=%s", gwAddrFor(inp().Addr, c.Issue.IP), w.User, url.QueryEscape(w.addr("A")), at)
@@ -382,6 +389,7 @@ func TestC04_BIN(t *testing.T) {
 	runProp(t, "C04_BIN", func(t *rapid.T) c04Bin {
 		c := c04Bin{VerifyMode: rapid.SampledFrom([]string{"true", "default", "default", "false"}).Draw(t, "verifyMode"), Case: genC04(t)}
 		c.Case.Verify = c.VerifyMode != "false"
+		c.Case.Signed = false // the instances of this unit run round-robin selection
 		c.Login = c.Case.Issue
 		if rapid.Bool().Draw(t, "loginElsewhere") {
 			c.Login = c04Side{IP: rapid.SampledFrom(c04IPs[:4]).Draw(t, "loginIP")}
